@@ -193,4 +193,26 @@ PROPS = {
         "rule": "Three monitors. (a) util::lru::Lru<K,V> driven directly: 50-2500 random insert/get operations per cache on 2-200 keys, initial capacity 2^0..2^6 slots, hashes a function of the key chosen adversarially (spread, 5 buckets, equal low bits that separate only after growth, collisions up to a capacity); every inserted value is fresh, so a stale or foreign value is distinguishable; model = HashMap key -> last value; get must return None or exactly the model's value. (b) The same generated BDD operation history is executed on RobddBuilder<AllIteTable> and on RobddBuilder<LruIteTable> whose cache starts at 2^0..2^4 slots (hook) and whose unique table starts at 2..64 slots; after every operation the two results must have the same canonical serialisation (isomorphism class incl. complement marks). (c) SDD: every 3rd operation of a long-lived CompressionSddBuilder (warm apply and ite caches) is redone in a fresh builder on operands rebuilt from their truth tables by Shannon expansion, and the isomorphism classes must agree. Floors require overwrites, cache growth and cache hits to have been observed. evaluations = caches / paired histories / SDD histories; all non-trivial; distinct = distinct inputs.",
         "assumptions": ASSUME_COMMON + ["the hash handed to the lossy cache is a function of the key, as in both ITE adapters"],
     },
+    "C17": {
+        "profiles": {"quick": ["mon"], "thorough": ["mon"]},
+        "scale": {"quick": 1, "thorough": 40},
+        "py_leg": "c17_reader",
+        "floors": {
+            "quick": {"dimacs_parsed": 800, "dimacs_roundtrips": 800, "sexprs_parsed": 850, "bdds_serialised": 2500, "sdds_serialised": 2500,
+                      "vtrees_serialised": 190, "py_read_bdd": 2500, "py_read_sdd": 2500, "py_read_vtree": 190, "py_complemented_roots": 500},
+            "thorough": {"py_read_bdd": 100000},
+        },
+        "rule": "One evaluation = one text parsed or one object serialised. DIMACS: the harness prints its own clause list (1-based, with comments, irregular spacing, duplicate and complementary literals), Cnf::from_dimacs must have the models of the text with variable i -> label i-1 (evaluated structurally and through eval), LogicalExpr::from_dimacs with variable i -> label i (S8, evaluated by the harness's own AST evaluator); to_dimacs + header + from_dimacs must give the same clause sets. S-expressions: random expression trees over all 7 constructors with names chosen so that bytewise-lexicographic order differs from first-occurrence and numeric order; variable_mapping must be the lexicographic numbering of the occurring names and the parsed expression must have the text's models under it. Serialisers: BDDSerializer / SDDSerializer / VTreeSerializer output (serde_json) for constants, single literals, results of random operation histories and their negations (shared nodes, complemented roots and edges) is written to a side file with the oracle truth table and read by an independent PYTHON reader (node table + complement flags -> truth table; vtree -> nested lists) which must reproduce the table / tree. Non-trivial = function neither constant nor literal; distinct = distinct texts / JSON strings.",
+        "assumptions": ASSUME_COMMON + ["s-expressions without constants (todo!() in rsdd, excluded by the property)", "DIMACS texts without empty clauses (third-party parser behaviour is not rsdd's)"],
+    },
+    "C19": {
+        "profiles": {"quick": [], "thorough": []},
+        "py_leg": "c19_cli",
+        "floors": {
+            "quick": {"cli_wmc": 700, "cli_formula_to_bdd": 350, "cli_cnf_to_bdd": 350, "cli_with_configured_order": 400},
+            "thorough": {"cli_wmc": 17000},
+        },
+        "rule": "One evaluation = one invocation of a binary built from /repo with --features cli (cargo build into /verif/target/repo) on generated input files. weighted_model_count (single-count mode, no partials): random s-expression over <= 7 named variables (names chosen so that lexicographic order differs from first-occurrence and numeric order), a weights file with dyadic weights (normalised or arbitrary eighths in [0,1.5]) that sometimes omits a formula variable (documented default 0/0) and sometimes names extra variables, and in 60% of the cases a config with a random order over all variables; expected = number of models and exact weighted sum (fractions.Fraction) over formula + weight-file variables; the printed float is converted exactly and must equal the sum. bottomup_formula_to_bdd (linear or manual order) and bottomup_cnf_to_bdd (--order auto_minfill / auto_force): the emitted JSON is read by the independent Python node-table reader and must denote the input formula (lexicographic numbering) / CNF (0-based). A non-zero exit status on an in-domain input is a violation. Non-trivial = the formula is neither valid nor unsatisfiable; distinct = distinct inputs.",
+        "assumptions": ASSUME_COMMON + ["the configured order lists every variable (formula and weight-file) exactly once; CNFs have at least one clause and no empty clause (S9)"],
+    },
 }
